@@ -99,10 +99,6 @@ def memo_invalidation(ctx):
             ctx.ob(ok and bool(resets), u, 'the lookup memo is reset after `%s`' % norm(s.ast),
                    '' if ok and resets else 'a registration would not take effect for types that were already looked up',
                    node=s.ast, witness=fmt_witness(cfg, path))
-        for r in resets:
-            # reset happens after the last store: no store reachable from the reset
-            later = [s for s in stores if s in cfg.reachable(r, labels=lambda l: l != 'exc')]
-            ctx.ob(not later, u, 'no handler store follows the memo reset `%s`' % norm(r.ast), node=r.ast)
     ctx.require(n_writers >= 2, 'TargetRegistry: fewer than 2 handler-storing methods found')
     # a memoised *failure* (False) is only stored when raise_exc is false; no call site passes that
     n_sites = 0
@@ -119,7 +115,7 @@ def memo_invalidation(ctx):
                 ctx.ob(not [k for k in call.keywords if k.arg == 'raise_exc'], u, 'lookup raises on failure: %s' % src(call, 70), node=call)
     if n_sites < 9:
         raise AnalysisError('C13.1: only %d get_handler call sites found (floor 9)' % n_sites)
-    ctx.floor(13)
+    ctx.floor(11)
 
 
 @rule('C13.2')
@@ -181,7 +177,11 @@ def exact_before_fuzzy(ctx):
     exact = [n for n in cfg.nodes if n.kind == 'stmt' and tv and mv and matches(n.ast, '$r = %s[%s]' % (mv, tv))]
     walk = [n for n in cfg.nodes if n.kind == 'stmt' and any(isinstance(c, ast.Call) and isinstance(c.func, ast.Attribute)
             and c.func.attr == '_get_closest_type' for c in ast.walk(n.ast))]
-    ctx.require(len(exact) == 1 and len(walk) == 1, 'get_handler: exact lookup / tree walk not found')
+    ctx.ob(len(exact) == 1, u, 'the handler map is first consulted for the exact type of the object',
+           '' if len(exact) == 1 else 'no `handler = type_map[type(obj)]` lookup found: an exact registration can be overridden by the tree walk')
+    ctx.require(len(walk) == 1, 'get_handler: tree walk not found')
+    if len(exact) != 1:
+        return
     ctx.ob(cfg.dominates(exact[0], walk[0]), u, 'the exact-type lookup precedes the tree walk')
     hs = cfg.handlers_reached_from(exact[0])
     ok = len(hs) == 1 and handler_covers(cfg, hs[0], 'KeyError') and walk[0] in cfg.reachable(hs[0])
